@@ -2451,6 +2451,10 @@ def c18_sweep_cases(tier):
             ("vslice", ["vslice", "b", 1, 3], ["vsum", ["vslice", "b", 1, 3]]),
             ("vel", ["elem", "b[2]"], ["vel", "b", 2]),
         ]),
+        "from_numpy": ({"kind": "vector", "name": "b", "n": 3, "via": "from_numpy"}, [
+            ("vec", ["vec", "b"], ["vsum", ["vec", "b"]]),
+            ("vrev", ["vrev", "b"], ["vsum", ["vrev", "b"]]),
+        ]),
         "matrix": ({"kind": "matrix", "name": "b", "rows": 2, "cols": 3}, [
             ("mrow", ["mrow", "b", 1], ["vsum", ["mrow", "b", 1]]),
             ("mcol", ["mcol", "b", 2], ["vsum", ["mcol", "b", 2]]),
